@@ -16,24 +16,37 @@ def singleWeightIn (e : EnvIn) : Bool := singleWeight (hookRefs e)
     scripted to be still starting (or dead) when its deployment is given up. -/
 def launchesPromptIn (e : EnvIn) : Bool := e.roles.all (fun r => r.kind == .call || r.launch == "ok")
 
+/-- Is the task with view key `x` a hook task of environment `k` (name `k.j`, role j a hook)? -/
+def isHookOf (sc : Scenario) (names : List String) (k : Nat) (x : Nat) : Bool :=
+  match names[x]?, sc.envs[k]? with
+  | some n, some e =>
+    (e.roles.zipIdx).any (fun p => p.1.kind == .hook && n == s!"{k}.{p.2}")
+  | _, _ => false
+
 /-- Why `cleanAfter k keep v` fails: `some hyp` if every failing clause is explained by an
-    excluded hypothesis the input violates, `none` otherwise. -/
-def explain (sc : Scenario) (k : Nat) (keep : Bool) (v : View) : Option String :=
+    excluded hypothesis the input violates, `none` otherwise.
+    * a task still owned by the dead environment is explained iff it is one of its DESTROY hook tasks
+      (released only at the last weight and only while their role is ACTIVE: destroy_hooks_unreleased);
+    * a task neither killed nor ended nor in the roster is explained iff the environment's deployment was
+      scripted to be given up while tasks were still starting (launch_pending_leak). -/
+def explain (sc : Scenario) (names : List String) (k : Nat) (keep : Bool) (v : View) : Option String :=
   match sc.envs[k]? with
   | none => none
   | some e =>
     let listed := !v.envs.all (fun E => decide (E.env ≠ k))
-    let owned := !v.roster.all (fun r => decide (r.owner ≠ some k))
-    let leak := !(keep || v.master.all (fun m => decide (m.label ≠ k) || m.killed || decide (m.mesos = .terminal)
+    let ownedRows := v.roster.filter (fun r => decide (r.owner = some k))
+    let leaks := if keep then [] else v.master.filter (fun m => !(decide (m.label ≠ k) || m.killed || decide (m.mesos = .terminal)
         || v.roster.any (fun r => decide (r.task = m.task) && decide (r.owner = none))))
     let dets := !v.dets.all (fun d => v.envs.any (fun E => decide (d ∈ E.dets)))
     let calls := !v.calls.all (fun c => decide (c.1 ≠ k) || decide (c.2.1 = c.2.2))
     if listed || dets || calls then none
-    else if owned && singleWeightIn e then none
-    else if leak && launchesPromptIn e && singleWeightIn e then none
-    else if owned then some "destroy_hooks_unreleased"
-    else if leak then (if !launchesPromptIn e then some "launch_pending_leak" else some "destroy_hooks_unreleased")
-    else none
+    else if !ownedRows.all (fun r => isHookOf sc names k r.task) then none
+    else
+      let freeLeaks := leaks.filter (fun m => !ownedRows.any (fun r => decide (r.task = m.task)))
+      if !freeLeaks.isEmpty && launchesPromptIn e then none
+      else if !ownedRows.isEmpty then some "destroy_hooks_unreleased"
+      else if !freeLeaks.isEmpty then some "launch_pending_leak"
+      else none
 
 /-- What the round's results oblige: environments that must be clean afterwards. -/
 def claims (c : RoundCtx) : List (Nat × Bool) :=
@@ -54,7 +67,7 @@ def judge (sc : Scenario) (ctxs : List RoundCtx) : Bool × String :=
       else if c.hungNow then (false, "teardown_rendezvous_race")
       else
         let bad := cl.filter (fun x => !cleanAfter x.1 x.2 c.after)
-        let ex := bad.map (fun x => explain sc x.1 x.2 c.after)
+        let ex := bad.map (fun x => explain sc c.names x.1 x.2 c.after)
         if ex.all Option.isSome then (false, (ex.head?.getD none).getD "-") else (false, "-")
   go ctxs
 
